@@ -87,6 +87,7 @@ int mc_live_threads(void); // modelled threads not finished (including caller)
 void mc_track_ctor(const void* p, long tag);
 void mc_track_dtor(const void* p);
 void mc_track_use(const void* p);
+void mc_track_point(void); /* scheduling point if opt.track_points */
 long mc_track_live(void);
 long mc_track_total(void);
 
